@@ -8,7 +8,7 @@ work=tempfile.mkdtemp(prefix='verif-diag-',dir='/var/tmp')
 try:
     ok,outs=vcheck.run_harness(pid,PROPS[pid],work,seed,os.environ.get('VERIF_TIER','quick'))
     cases,bad,errs,stats=vcheck.eval_cases(pid,work)
-    print('cases',len(cases),'bad',len(bad))
+    print('cases',len(cases),'bad',len(bad),'errs',[e[1][-400:] for e in errs][:2])
     for idx,a,h in bad[:n]:
         v=os.path.join(work,'diag.v')
         open(v,'w').write("From Turn Require Import %sCheck.\nOpen Scope N_scope.\nDefinition c : case := %s.\nEval vm_compute in diagnose c.\n"%(pid,cases[idx]['term']))
